@@ -5,6 +5,7 @@ import subprocess
 import tempfile
 import time
 import z3
+from .core import has_quant
 
 CVC5 = shutil.which("cvc5") or "/usr/bin/cvc5"
 LAST_MODEL = None
@@ -39,9 +40,79 @@ def _cvc5(smt2, timeout_ms):
         os.unlink(path)
 
 
+_WEAK = {"vcx_PINF", "vcx_NINF"}
+SYMCACHE = {}      # per path (reset by run_unit): ast id -> symbols; the path's terms stay alive while it is used
+
+
+def _symbols(t, cache):
+    """Uninterpreted symbol names (constants and functions) occurring in t."""
+    i = t.get_id()
+    if i in cache:
+        return cache[i]
+    out = set()
+    todo = [t]
+    seen = set()
+    while todo:
+        u = todo.pop()
+        k = u.get_id()
+        if k in seen:
+            continue
+        seen.add(k)
+        if z3.is_quantifier(u):
+            todo.append(u.body())
+            continue
+        if z3.is_app(u):
+            d = u.decl()
+            if d.kind() == z3.Z3_OP_UNINTERPRETED:
+                out.add(d.name())
+            todo.extend(u.children())
+    cache[i] = out
+    return out
+
+
+def cone_of_influence(pc, goal):
+    """Keep the assumptions connected to the goal through shared uninterpreted symbols (dropping hypotheses is sound)."""
+    cache = SYMCACHE
+    rel = set(_symbols(goal, cache)) - _WEAK
+    syms = [(_symbols(a, cache) - _WEAK) for a in pc]
+    keep = [False] * len(pc)
+    changed = True
+    while changed:
+        changed = False
+        for i, sy in enumerate(syms):
+            if not keep[i] and (sy & rel or not sy):
+                keep[i] = True
+                if not sy <= rel:
+                    rel |= sy
+                    changed = True
+    return [a for a, k in zip(pc, keep) if k]
+
+
 def check_sat(assertions, timeout_ms, use_cvc5=True, seed=0):
-    """Returns (verdict, model_dict_or_None, backend, seconds)."""
+    """Returns (verdict, model_dict_or_None, backend, seconds).
+
+    Portfolio: (1) z3 with E-matching only (no MBQI) - fast and sufficient for almost all `unsat` answers;
+    (2) z3's default tactic pipeline; (3) z3 with MBQI (counter-models); (4) cvc5 on z3's `unknown`."""
+    global LAST_MODEL
     t0 = time.time()
+    quant = any(has_quant(a) for a in assertions)
+    if quant:
+        s1 = z3.Solver()
+        s1.set(timeout=min(timeout_ms, 3000))
+        s1.set("smt.mbqi", False)
+        s1.add(*assertions)
+        r = s1.check()
+        if r == z3.unsat:
+            return "unsat", None, "z3(ematching)", time.time() - t0
+        s2 = z3.Tactic("default").solver()
+        s2.set(timeout=min(timeout_ms, 5000))
+        s2.add(*assertions)
+        r = s2.check()
+        if r == z3.unsat:
+            return "unsat", None, "z3(default-tactic)", time.time() - t0
+        if r == z3.sat:
+            LAST_MODEL = s2.model()
+            return "sat", _model_dict(LAST_MODEL), "z3(default-tactic)", time.time() - t0
     s = z3.Solver()
     s.set(timeout=timeout_ms)
     if seed:
@@ -51,23 +122,13 @@ def check_sat(assertions, timeout_ms, use_cvc5=True, seed=0):
     if r == z3.unsat:
         return "unsat", None, "z3", time.time() - t0
     if r == z3.sat:
-        global LAST_MODEL
         LAST_MODEL = s.model()
         return "sat", _model_dict(LAST_MODEL), "z3", time.time() - t0
-    # retry z3 with a different configuration
-    s2 = z3.Solver()
-    s2.set(timeout=timeout_ms)
-    s2.set("smt.mbqi", False)
-    s2.add(*assertions)
-    r = s2.check()
-    if r == z3.unsat:
-        return "unsat", None, "z3(no-mbqi)", time.time() - t0
     if use_cvc5:
         v = _cvc5(s.to_smt2(), timeout_ms)
         if v == "unsat":
             return "unsat", None, "cvc5", time.time() - t0
         if v == "sat":
-            # cvc5 gives no model through this path; re-ask z3 longer for a model is pointless: report sat w/o model
             return "sat", {}, "cvc5", time.time() - t0
     return "unknown", None, "z3+cvc5", time.time() - t0
 
@@ -79,7 +140,16 @@ def discharge(ob, timeout_ms=10000, use_cvc5=True):
         return ob
     global LAST_MODEL
     LAST_MODEL = None
-    v, m, be, secs = check_sat(list(ob.pc) + [z3.Not(g)], timeout_ms, use_cvc5)
+    # first on the cone of influence of the goal (sound: fewer hypotheses); a `sat`/`unknown` there is re-asked on the full
+    # path condition, so that counter-models always satisfy every assumption
+    coi = cone_of_influence(list(ob.pc), g)
+    v, m, be, secs = check_sat(coi + [z3.Not(g)], timeout_ms, use_cvc5=False)
+    if v != "unsat" and len(coi) < len(ob.pc):
+        v, m, be, secs2 = check_sat(list(ob.pc) + [z3.Not(g)], timeout_ms, use_cvc5)
+        secs += secs2
+    elif v == "unknown" and use_cvc5:
+        v, m, be, secs2 = check_sat(list(ob.pc) + [z3.Not(g)], timeout_ms, use_cvc5)
+        secs += secs2
     ob.verdict, ob.model, ob.backend, ob.secs = v, m, be, secs
     ob.zmodel = LAST_MODEL if v == "sat" else None
     return ob
